@@ -569,6 +569,12 @@ func (g *gen) lookalikes() {
 	base := func() {
 		g.recv("recv", v)
 		g.recv("recv", w)
+		// read both before anything is tampered with (the store is stateful across reads)
+		for i := 1; i <= 2; i++ {
+			g.op(fmt.Sprintf("fetch @%d", i))
+			cl := g.checkFetch(g.e.w, "fetch-before-tamper", g.e.labels[i-1], true)
+			g.r.Hit("warm:fetch-before-tamper:" + cl)
+		}
 	}
 	finish := func(name string) {
 		g.tampered = true
@@ -677,36 +683,75 @@ func (g *gen) lookalikes() {
 	}
 }
 
-// every single-byte flip, truncation, extension and blob-for-blob substitution of small stored blobs
+// every single-byte flip, truncation, extension and blob-for-blob substitution of small stored blobs.
+// The store is stateful across reads, so every experiment runs FETCH-FIRST: the victim is read
+// successfully through the live storage (once, or several times together with stat and enumerate) before
+// its ciphertext or meta blob is modified, it is read again without a restart and after one, and once
+// more after the original bytes are back.  Two pairs of blobs have equal plaintext lengths on purpose.
 func (g *gen) tamperMatrix(masks []int, stride int) {
 	g.begin("tamper-matrix")
-	sizes := []int{0, 9, 40}
+	sizes := []int{0, 9, 9, 40, 40}
 	for _, n := range sizes {
 		g.recv("recv", g.freshData(n))
 	}
+	nb := len(sizes)
 	g.op("dump")
 	g.pointCheck(true)
 	g.op("snap")
 	g.tampered = true
-	toks := []string{"E1", "E2", "E3", "M1", "M2", "M3"}
+	var toks []string
+	for i := 1; i <= nb; i++ {
+		toks = append(toks, fmt.Sprintf("E%d", i))
+	}
+	for i := 1; i <= nb; i++ {
+		toks = append(toks, fmt.Sprintf("M%d", i))
+	}
 	length := func(tok string) int {
 		l, _ := g.e.parseLoc(tok)
 		c, _ := l.get()
 		return len(c)
 	}
+	idx := func(tok string) int { return int(tok[1] - '0') }
+	// read label i through the live storage; the stores hold the original bytes, so it must succeed
+	read := func(i int, why string) {
+		g.op(fmt.Sprintf("fetch @%d", i))
+		cl := g.checkFetch(g.e.w, why, g.e.labels[i-1], true)
+		g.r.Hit("warm:" + why + ":" + cl)
+	}
+	// warm: successful reads of the victim before it is tampered with (n = how thorough)
+	warm := func(tok string, n int) {
+		i := idx(tok)
+		if tok[0] == 'M' {
+			// the previous experiment may have left the storage down or its index incomplete
+			g.restart("wipe", false)
+		}
+		read(i, "fetch-before-tamper")
+		if n > 0 {
+			read(i, "fetch-before-tamper")
+			g.op(fmt.Sprintf("stat @%d", i))
+			g.op("enum - 0")
+			for j := 1; j <= nb; j++ {
+				read(j, "fetch-before-tamper")
+			}
+		}
+	}
 	verdict := func(tok, kind string, v int) {
-		isMeta := tok[0] == 'M'
-		if isMeta {
+		i := idx(tok)
+		if tok[0] == 'M' {
+			// without a restart the meta store is not read: the live storage keeps serving
+			if v%8 == 0 {
+				read(i, "fetch-after-meta-tamper-live")
+			}
 			out := g.restart("wipe", false)
 			g.r.Hit("tamper:meta:" + kind + ":restart-" + out)
 			if out == "ok" {
-				for i, ref := range g.e.labels {
-					g.op(fmt.Sprintf("fetch @%d", i+1))
+				for j, ref := range g.e.labels {
+					g.op(fmt.Sprintf("fetch @%d", j+1))
 					g.checkFetch(g.e.w, "tamper-meta-"+kind, ref, false)
 				}
 			}
+			g.op("restore")
 		} else {
-			i := int(tok[1] - '0')
 			out := g.op(fmt.Sprintf("fetch @%d", i))
 			cl := g.checkFetch(g.e.w, "tamper-blob-"+kind, g.e.labels[i-1], false)
 			g.r.Hit("tamper:blob:" + kind + ":fetch-" + cl)
@@ -714,45 +759,88 @@ func (g *gen) tamperMatrix(masks []int, stride int) {
 				g.r.Fail("tamper-undetected:"+kind, "a modified ciphertext blob was served", "corrupt", out, g.r.CaseOps())
 			}
 			if v%16 == 0 {
-				// a restart does not help
-				g.restart("wipe", false)
+				// again, and a restart does not help either
 				g.op(fmt.Sprintf("fetch @%d", i))
 				g.checkFetch(g.e.w, "tamper-blob-"+kind, g.e.labels[i-1], false)
+				g.restart([]string{"wipe", "keep"}[(v/16)%2], false)
+				g.op(fmt.Sprintf("fetch @%d", i))
+				cl := g.checkFetch(g.e.w, "tamper-blob-"+kind+"-restarted", g.e.labels[i-1], false)
+				g.r.Hit("tamper:blob:" + kind + ":restarted-fetch-" + cl)
+			}
+			g.op("restore")
+			if v%16 == 0 {
+				// the original bytes are back: it is served again
+				read(i, "refetch-after-swap-back")
 			}
 		}
-		g.op("restore")
 		g.r.Distinct(fmt.Sprintf("tamper:%s:%s:%d", tok, kind, v))
 	}
 	for _, tok := range toks {
 		n := length(tok)
 		for pos := 0; pos < n; pos += stride {
 			for _, m := range masks {
+				warm(tok, b2i(pos%32 == 0 && m == masks[0]))
 				g.op(fmt.Sprintf("garble %s flip %d", tok, pos*256+m))
 				verdict(tok, "flip", pos)
 			}
 		}
 		for l := 0; l < n; l += stride {
+			warm(tok, b2i(l%32 == 0))
 			g.op(fmt.Sprintf("garble %s trunc %d", tok, l))
 			verdict(tok, "trunc", l)
 		}
 		for _, x := range []int{0, 1, 15, 63} {
+			warm(tok, 1)
 			g.op(fmt.Sprintf("garble %s extend %d", tok, x))
 			verdict(tok, "extend", x)
 		}
+		warm(tok, 1)
 		g.op("drop " + tok)
 		verdict(tok, "drop", 0)
 	}
-	// blob-for-blob substitutions, also across the two stores
-	after := func(kind, a, b string) {
-		out := g.restart("wipe", false)
+	// blob-for-blob substitutions, also across the two stores and between blobs of equal plaintext length:
+	// read everything, substitute, read live, restart, read, put the bytes back, read
+	readAll := func(why string, must bool) {
+		for j, ref := range g.e.labels {
+			g.op(fmt.Sprintf("fetch @%d", j+1))
+			cl := g.checkFetch(g.e.w, why, ref, must)
+			g.r.Hit("warm:" + why + ":" + cl)
+		}
+	}
+	sameLen := func(a, b string) bool {
+		return a[0] == 'E' && b[0] == 'E' && sizes[idx(a)-1] == sizes[idx(b)-1]
+	}
+	round := 0
+	subst := func(kind, a, b string) {
+		round++
+		g.restart("wipe", false) // clean stores: up, full index
+		readAll("fetch-before-substitution", true)
+		if round%3 == 0 {
+			readAll("fetch-before-substitution", true)
+			for j := 1; j <= nb; j++ {
+				g.op(fmt.Sprintf("stat @%d", j))
+			}
+			g.op("enum - 0")
+		}
+		g.op(kind + " " + a + " " + b)
+		tag := kind
+		if sameLen(a, b) {
+			tag += "-equal-length"
+			g.r.Hit("warm:substitution-between-equal-length-plaintexts")
+		}
+		readAll("fetch-after-"+tag+"-live", false)
+		readAll("fetch-after-"+tag+"-live", false)
+		out := g.restart([]string{"wipe", "keep"}[round%2], false)
 		g.r.Hit("tamper:" + kind + ":restart-" + out)
 		g.op("dump")
-		for i, ref := range g.e.labels {
-			g.op(fmt.Sprintf("fetch @%d", i+1))
-			g.checkFetch(g.e.w, "tamper-"+kind, ref, false)
+		if out == "ok" {
+			readAll("fetch-after-"+tag+"-restarted", false)
 		}
-		// without a restart the live index still points at the right names
 		g.op("restore")
+		if out == "ok" && a[0] == 'E' && b[0] == 'E' {
+			// only ciphertext was touched: index and meta are intact, the bytes are back
+			readAll("refetch-after-swap-back", true)
+		}
 		g.r.Distinct("tamper:" + kind + ":" + a + ":" + b)
 	}
 	for _, a := range toks {
@@ -760,11 +848,9 @@ func (g *gen) tamperMatrix(masks []int, stride int) {
 			if a == b {
 				continue
 			}
-			g.op("copy " + a + " " + b)
-			after("copy", a, b)
+			subst("copy", a, b)
 			if a < b {
-				g.op("swap " + a + " " + b)
-				after("swap", a, b)
+				subst("swap", a, b)
 			}
 		}
 	}
@@ -772,21 +858,6 @@ func (g *gen) tamperMatrix(masks []int, stride int) {
 	g.tampered = false
 	g.op("dump")
 	g.fetchAll("live")
-	// live index (no restart): a substituted ciphertext is refused by the digest check
-	g.tampered = true
-	for _, a := range []string{"E1", "E2", "E3"} {
-		for _, b := range toks {
-			if a == b {
-				continue
-			}
-			g.op("copy " + a + " " + b)
-			for i, ref := range g.e.labels {
-				g.op(fmt.Sprintf("fetch @%d", i+1))
-				g.checkFetch(g.e.w, "tamper-copy-live", ref, false)
-			}
-			g.op("restore")
-		}
-	}
 }
 
 // malformed op lines: both sides must refuse them the same way
